@@ -469,33 +469,55 @@ Definition bind_value_r (req : bool) (text : bytes) (T : ftype) : res fval :=
   end.
 Definition bind_value (text : bytes) (T : ftype) : res fval := bind_value_r true text T.
 
-(* the value route for a configured value: FormatAny, then the text is bound *)
-Definition bind_formatted (v : cval) (T : ftype) : res fval :=
-  rbind (format_any v) (fun text => bind_value text T).
+(* FormatAny as the ${} callback applies it.  [fx] = repair D-C17g (fixes/D-C17g.diff): a float64 is
+   spliced in plain digits, strconv.FormatFloat(f, 'f', -1, 64), instead of %v's exponent form *)
+Definition format_cfg (fx : bool) (v : cval) : res bytes :=
+  match v with
+  | VDec m e => if fx then Ok (fmt_float_f m e) else format_any v
+  | _ => format_any v
+  end.
+
+(* the value route for a configured value: format, then the text is bound *)
+Definition bind_formatted (fx : bool) (v : cval) (T : ftype) : res fval :=
+  rbind (format_cfg fx v) (fun text => bind_value text T).
 
 Definition ph (key : bytes) : bytes := b_dollar :: b_lbrace :: key ++ [b_rbrace].
+
+(* the callback handed to ReplaceAllContent: Placeholder.resolve with the formatting of the tree at hand
+   (resolve_fx false = resolve, proved) *)
+Definition resolve_fx (fx : bool) (cfg : bytes -> cval) (exp : bytes) : res bytes :=
+  let (key, dflt) := split_first b_colon exp in
+  let v := cfg key in
+  rbind (if absent v then
+           match dflt with
+           | Some (c :: d) => parse_any (c :: d)
+           | _ => Ok v
+           end
+         else Ok v)
+        (fun v' => match v' with VNull => Ok [] | _ => format_cfg fx v' end).
 
 (* no  #{...}  left in the text: the expression stage (C18) leaves it alone *)
 Definition expr_free (text : bytes) : bool :=
   match find_first b_hash text with None => true | Some _ => false end.
 
-(* value:"<tagstr>" through the ${} stage of the repaired code (substitution budget), the #{}
-   stage on expression-free texts, and the binding stage.  A text that still holds  #{...}  goes to
-   expr-lang, which this model does not cover: [None]. *)
-Definition bind_tag_value (cfg : bytes -> cval) (req : bool) (tagstr : bytes) (T : ftype) : option (res fval) :=
+(* value:"<tagstr>" through the ${} stage (ReplaceAllContent with its substitution budget; on texts whose
+   substitution ends, the unrepaired loop gives the same), the #{} stage on expression-free texts, and the
+   binding stage.  A text that still holds  #{...}  goes to expr-lang, which this model does not cover: [None]. *)
+Definition bind_tag_value (fx : bool) (cfg : bytes -> cval) (req : bool) (tagstr : bytes) (T : ftype)
+  : option (res fval) :=
   let bound text := if expr_free text then Some (bind_value_r req text T) else None in
   match find_first b_dollar tagstr with
   | None => bound tagstr
   | Some _ =>
-    match quote_stage cfg (Some repo_budget) O tagstr with
+    match replace_all_content b_dollar (resolve_fx fx cfg) (Some repo_budget) O tagstr with
     | Done text => bound text
     | Panicked => Some Panic
     | _ => Some Err
     end
   end.
 
-Definition bind_key_value (cfg : bytes -> cval) (key : bytes) (T : ftype) : option (res fval) :=
-  bind_tag_value cfg true (ph key) T.
+Definition bind_key_value (fx : bool) (cfg : bytes -> cval) (key : bytes) (T : ftype) : option (res fval) :=
+  bind_tag_value fx cfg true (ph key) T.
 
 (* prop:"tag": the ExtractHandler's rewrite of the whole tag text, then NewProperty's split *)
 Definition prop_rewrite (tag : bytes) : bytes :=
@@ -510,8 +532,8 @@ Definition tag_value_part (tag : bytes) : bytes :=
 (* ",required=false" among the arguments (the only argument the binding stages read here) *)
 Definition lit_req_false : bytes := [44;114;101;113;117;105;114;101;100;61;102;97;108;115;101]%N.
 
-Definition bind_prop (cfg : bytes -> cval) (req : bool) (tag : bytes) (T : ftype) : option (res fval) :=
-  bind_tag_value cfg req (tag_value_part (prop_rewrite tag)) T.
+Definition bind_prop (fx : bool) (cfg : bytes -> cval) (req : bool) (tag : bytes) (T : ftype) : option (res fval) :=
+  bind_tag_value fx cfg req (tag_value_part (prop_rewrite tag)) T.
 
 (* ---- the domain of the agreement theorem ------------------------------------------------------ *)
 
@@ -603,14 +625,14 @@ Fixpoint nsafe (T : ftype) (v : cval) {struct T} : bool :=
     end
   end.
 
-(* the domain of c17_paths_agree *)
-Definition safe (v : cval) (T : ftype) : bool :=
+(* the domain of c17_paths_agree; with the repair D-C17g floats of every magnitude are in *)
+Definition safe (fx : bool) (v : cval) (T : ftype) : bool :=
   match v with
   | VNull => false
   | VBool _ => true
   | VStr s => plain s && negb (beqb s [])
   | VInt z => int_safe z && int_target T
-  | VDec m e => dec_top_safe m e
+  | VDec m e => if fx then dec_normal m e else dec_top_safe m e
   | VList _ | VMap _ => jsafe v && nsafe T v
   end.
 
